@@ -165,7 +165,9 @@ void run(const Workload& w, Result& res) {
         if (g_e_bad_assign.load()) res.fail("pmerge_lifetime", "an element was assigned to storage that holds no object (" + std::to_string(g_e_bad_assign.load()) + " times)");
         else if (g_e_bad_source.load()) res.fail("pmerge_lifetime", "an element was copied from storage that holds no object");
         else if (g_e_bad_destroy.load()) res.fail("pmerge_lifetime", "storage that holds no object was destroyed as an element");
-        else if (g_e_live.load() - e_live0 != mine) res.fail("pmerge_lifetime", std::to_string(g_e_live.load() - e_live0 - mine) + " temporary elements created by the merge are still alive (or were destroyed twice) after it returned");
+        // (C07 does not say that the merge's temporaries are gone when it returns -- C06 says that of the sort:
+        //  counted, not judged)
+        else if (g_e_live.load() - e_live0 != mine) res.probe("beyond_c07.temporaries_alive_after_return");
     }
 
     static const char* en[] = {"base<unstable>", "base<stable>", "parallel_multiway_merge", "stable_parallel_multiway_merge",
